@@ -65,6 +65,18 @@ class DDesc:
         _hit('__set__/' + self.key)
 
 
+class LazyProp(property):
+    pass
+
+
+class NDescSub(NDesc):
+    pass
+
+
+class DDescSub(DDesc):
+    pass
+
+
 def fn(a, b=1):
     return a
 
@@ -73,9 +85,14 @@ Dyn = type('Dyn', (), {'ca': 7, 'cs': 's'})
 '''
 
 
-def _members(feature, placement):
-    """Source lines (class-body level, 4 spaces) for one feature at one placement."""
+def _members(feature, placement, inherit=False):
+    """Source lines (class-body level, 4 spaces) for one feature at one placement.
+    inherit: the descriptor's type only inherits __get__/__set__ (property subclass, ...)."""
     k = '%s@%s' % (feature, placement)
+    if inherit and feature in ('P', 'MP', 'ND', 'DD'):
+        plain = _members(feature, placement)
+        return [ln.replace('@property', '@LazyProp').replace('NDesc(', 'NDescSub(')
+                .replace('DDesc(', 'DDescSub(') for ln in plain]
     meta = placement == 'meta'
     base_t = 'type' if meta else 'object'
     if feature == 'P':
@@ -122,28 +139,37 @@ def _members(feature, placement):
     raise ValueError(feature)
 
 
-def shape_id(shape, shadow=False):
-    return '+'.join('%s@%s' % fp for fp in shape) + ('|sh' if shadow else '')
+def shape_id(shape, shadow=False, inherit=False):
+    return '+'.join('%s@%s' % fp for fp in shape) + ('|sh' if shadow else '') \
+        + ('|inh' if inherit else '')
 
 
 def parse_shape_id(sid):
+    """-> (shape, shadow) or, for ids carrying the inherited-descriptor flag, (shape, flags)
+    where flags is the tuple (shadow, inherit); shape_source accepts both."""
+    inherit = sid.endswith('|inh')
+    if inherit:
+        sid = sid[:-4]
     shadow = sid.endswith('|sh')
     if shadow:
         sid = sid[:-3]
-    return tuple(tuple(x.split('@')) for x in sid.split('+')), shadow
+    shape = tuple(tuple(x.split('@')) for x in sid.split('+'))
+    return shape, ((shadow, True) if inherit else shadow)
 
 
-def shape_source(shape, variant, shadow=False):
+def shape_source(shape, variant, shadow=False, inherit=False):
     """-> python source of the module for this shape."""
+    if isinstance(shadow, tuple):
+        shadow, inherit = shadow
     where = {'cls': [], 'base': [], 'meta': [], 'metabase': []}
     feats = dict(shape)
     for f, p in shape:
         if f == 'MP':
             # metaclass property: 'cls' -> on Meta, 'base' -> inherited from MetaBase,
             # 'meta' -> on Meta as well (kept for regularity of the enumeration)
-            where['metabase' if p == 'base' else 'meta'] += _members(f, p)
+            where['metabase' if p == 'base' else 'meta'] += _members(f, p, inherit)
         else:
-            where[p] += _members(f, p)
+            where[p] += _members(f, p, inherit)
     slots_cls = feats.get('SL') == 'cls'
     if slots_cls:
         where['base'].insert(0, '    __slots__ = ()')
